@@ -131,8 +131,10 @@ func oracleBalance(probes [][]byte, countReads bool) Oracle {
 	return Oracle{Name: "balance", Fn: func(w *World) *Violation {
 		t, m := w.Tree, w.M
 		chk := func(what string, h int8, n int64, want *ref.Node) *Violation {
-			if h != ref.HeightOf(want) || n != ref.SizeOf(want) {
-				return viol("balance", "%s: Height=%d Size=%d, reference %d/%d", what, h, n, ref.HeightOf(want), ref.SizeOf(want))
+			// Size is the number of keys of the model. The height is NOT compared with the reference tree: another
+			// rebalancing that keeps the AVL bound satisfies this statement (it would break C02, which owns shapes).
+			if n != ref.SizeOf(want) {
+				return viol("balance", "%s: Size=%d, the model has %d keys", what, n, ref.SizeOf(want))
 			}
 			if float64(h) > 1.4405*math.Log2(float64(n)+2) {
 				return viol("balance", "%s: height %d exceeds the AVL bound for %d keys", what, h, n)
